@@ -318,11 +318,14 @@ class Run:
             "coverage": self.cov, "assumptions": self.assumptions,
             "wall_s": round(time.time() - self.t0, 2), "violations": len(self.violations),
         }
-        os.makedirs(os.path.join(VERIF, "evidence"), exist_ok=True)
-        tmp = os.path.join(VERIF, "evidence", ".%s.%d.tmp" % (self.prop, os.getpid()))
+        # VERIF_EVIDENCE_DIR: developer runs against a deliberately broken copy of the repository (seeded changes)
+        # must not overwrite the evidence of the registered checks
+        evdir = os.environ.get("VERIF_EVIDENCE_DIR") or os.path.join(VERIF, "evidence")
+        os.makedirs(evdir, exist_ok=True)
+        tmp = os.path.join(evdir, ".%s.%d.tmp" % (self.prop, os.getpid()))
         with open(tmp, "w") as f:
             json.dump(ev, f, indent=1, default=str)
-        os.replace(tmp, os.path.join(VERIF, "evidence", self.prop + ".json"))
+        os.replace(tmp, os.path.join(evdir, self.prop + ".json"))
         shutil.rmtree(self.work, ignore_errors=True)
         try:
             os.rmdir(os.path.join(VERIF, ".work"))
